@@ -474,6 +474,18 @@ ROUND15 = {
 for _k, _v in ROUND15.items():
     CLAIMED[_k]["text"] = CLAIMED[_k]["text"] + " " + _v
 
+# sentences added in the sixteenth round of seeding (eight properties)
+ROUND16 = {
+    "C03": "The scope that resolves replicate/aggregate is layered global, stage, component.",
+    "C04": "A string value of a variable is always resolved recursively before it replaces a reference.",
+    "C06": "The values an instance resolves are private to it (a deep copy of the template, or a resolver that builds new containers).",
+    "C09": "The name of an application dependency is taken after a trailing separator was removed, on every path.",
+    "C11": "The classification formula of ParseDataReferenceFull (C09's truth-table obligations) is part of the dangling-reference check.",
+    "C19": "No writer of the sectioned format filters a mapping on the truthiness of its values.",
+}
+for _k, _v in ROUND16.items():
+    CLAIMED[_k]["text"] = CLAIMED[_k]["text"] + " " + _v
+
 
 def main():
     checks = []
